@@ -423,24 +423,59 @@ def W.applyUpdates (w : W) : W × Bool :=
       | none => ({ w with t := w.t.invalidate, trace := (shown ++ ":f") :: w.trace }, true)
       | some K' => ({ w with K := K', t := w.t.commit newH newFull, trace := (shown ++ ":ok") :: w.trace }, false)
 
+/-- Start of one iteration of `Apply`'s loop: re-read the table if the cache is not in sync; `false` = Panic. -/
+def W.ensureLoaded (w : W) : W × Bool :=
+  if !w.t.inSync then
+    let r := W.save 4 w
+    if r.2 then ({ r.1 with t := r.1.t.load r.1.K }, true) else (r.1, false)
+  else (w, true)
+
 /-- The retry loop of `Apply`: `retries` left; `false` = Panic. -/
 def W.applyLoop : Nat → W → W × Bool
   | 0, w => (w, false)
   | fuel + 1, w =>
-    let (w, ok) := if !w.t.inSync then
-        let (w, ok) := W.save 4 w
-        if ok then ({ w with t := w.t.load w.K }, true) else (w, false)
-      else (w, true)
-    if !ok then (w, false)
+    let l := w.ensureLoaded
+    if !l.2 then (l.1, false)
     else
-      let (w, err) := w.applyUpdates
-      if err then
-        if fuel == 0 then (w, false) else W.applyLoop fuel { w with sleeps := w.sleeps + 1 }
-      else (w, true)
+      let u := l.1.applyUpdates
+      if u.2 then
+        if fuel == 0 then (u.1, false) else W.applyLoop fuel { u.1 with sleeps := u.1.sleeps + 1 }
+      else (u.1, true)
 
 /-- `Apply` (11 attempts: the first plus 10 retries). -/
 def W.apply (w : W) : W × Bool :=
   let (w, ok) := W.applyLoop 11 w
   if ok then (w, true) else ({ w with dead := true }, false)
+
+/-! ### The operations the driver replays (the histories the theorems quantify over) -/
+
+inductive Op where
+  | restart (insertMode : Bool)                 -- Felix restarts: a new `Table`, same kernel
+  | kchain (n : String) (rs : List KRule)       -- somebody else (re)writes a chain
+  | kdelchain (n : String)                      -- somebody else deletes a chain
+  | chain (n : String) (ch : Chain)             -- `UpdateChain`
+  | rmchain (n : String)                        -- `RemoveChainByName`
+  | ins (c : String) (rs : List DRule)          -- `InsertOrAppendRules`
+  | app (c : String) (rs : List DRule)          -- `AppendRules`
+  | invalidate                                  -- `InvalidateDataplaneCache` / refresh timer
+  | apply (saveFails restoreFails : List Bool) (pre : Option (String × Nat))   -- `Apply` with injected failures
+deriving Repr
+
+/-- One operation; for `apply`, whether it returned (`false` = Panic, after which the process is dead). -/
+def W.stepOp (w : W) : Op → W × Option Bool
+  | .restart m => ({ w with t := T.new w.t.prefixes m, sleeps := 0 }, none)
+  | .kchain n rs => ({ w with K := w.K.set n rs }, none)
+  | .kdelchain n => ({ w with K := w.K.erase n }, none)
+  | .chain n ch => ({ w with t := w.t.updateChain n ch }, none)
+  | .rmchain n => ({ w with t := w.t.removeChain n }, none)
+  | .ins c rs => ({ w with t := w.t.setInserts c rs }, none)
+  | .app c rs => ({ w with t := w.t.setAppends c rs }, none)
+  | .invalidate => ({ w with t := w.t.invalidate }, none)
+  | .apply sf rf pre =>
+    let r := ({ w with saveFails := sf, restoreFails := rf, pre := pre, trace := [] } : W).apply
+    ({ r.1 with pre := none }, some r.2)
+
+/-- A whole history (a dead process does nothing more). -/
+def W.run (w : W) (ops : List Op) : W := ops.foldl (fun w o => if w.dead then w else (w.stepOp o).1) w
 
 end CalicoVerif.C15
